@@ -64,6 +64,9 @@ def parse_case(esm, tlv, text, expect=None, tag='raw'):
         out2 = 'exc ' + exc_name(e)
     if d is not None and out2 != out:      # (after a parse that raised, a second parse is not judged)
         fail = 'the same DeliverSm parsed a second time gives %s, the first time %s' % (out2[:200], out[:200])
+    # an id comes from the text or from this object's parameter, from nowhere else
+    if d is not None and fail is None and d.get('id') and tlv in (None, '') and 'id:' not in text.lower():
+        fail = 'parsed id %r although neither the text nor a receipted_message_id parameter of this DeliverSm carries one' % (d.get('id'),)
     # another DeliverSm with the very same text but another receipted_message_id parameter (or none): its id is its own
     if d is not None and fail is None and (esm & 0b00111100) >> 2 == 1:
         for tlv2 in ('sibling-id', None):
@@ -229,9 +232,55 @@ def esme_case(rng):
     return Case(line, line, ('via-esme', how), fail, {'op': 'via-esme', 'how': how, 'text': text})
 
 
+def esme_segmented_case(rng):
+    """receipts for the segments of a message the library segmented, handled by the ESME: the one receipt it hands to the
+    hook in the end (the last failing one, or the first) must parse to what its own text says"""
+    from corr.corrlib import CorrSim
+    DeliverSm, OptionalParam, RMI = _mods()
+    n = rng.choice((2, 3))
+    states = [rng.choice(('DELIVRD', 'DELIVRD', 'UNDELIV')) for _ in range(n)]
+    sim = CorrSim()
+    fail = None
+    try:
+        t = 100
+        for i in range(1, n + 1):
+            t += 1
+            sim.op_put(t, sim.submit(i, 44, 1044, sar=(9, i, n)))
+        for i in range(1, n + 1):
+            t += 1
+            sim.op_hresp(t, sim.resp('submitresp', i, 0, 'sg%d' % i))
+        res = None
+        for k, i in enumerate(rng.sample(range(1, n + 1), n)):
+            r = {'id': 'sg%d' % i, 'sub': 1, 'dlvrd': 1 if states[i - 1] == 'DELIVRD' else 0,
+                 'submit date': rand_date(rng), 'done date': rand_date(rng), 'stat': states[i - 1],
+                 'err': 0 if states[i - 1] == 'DELIVRD' else 5 + i, 'text': 'part %d' % i}
+            d = sim.deliver(500 + k, 'x', receipt=None)
+            d.short_message = DeliverSm.encode_receipt(r)
+            d.esm_class = 4
+            t += 1
+            res = sim.op_hdel(t, d)[2]
+        if res is None or res is sim.em._SUBMIT_SM_SEGMENT or not hasattr(res, 'parse_receipt'):
+            fail = 'no receipt was handed to the hook after the receipts of all %d segments (%r)' % (n, res)
+        else:
+            got = res.parse_receipt()
+            own = DeliverSm(short_message=res.short_message, esm_class=res.esm_class,
+                            optional_params=list(res.optional_params or [])).parse_receipt()
+            if show_dict(got) != show_dict(own):
+                fail = ('the receipt handed to the hook (segment states %s) says %r in its text but parse_receipt() on it returns %s'
+                        % (states, res.short_message[:60], {k: got.get(k) for k in ('id', 'stat', 'err')}))
+    except Exception as e:      # noqa
+        fail = 'handling the receipts of a segmented message raised %r' % (e,)
+    finally:
+        sim.close()
+    line = '# receipts-of-segments-via-esme %d %s' % (n, ','.join(states))
+    return Case(line, line, ('via-esme-seg', n, tuple(states)), fail, {'op': 'via-esme', 'how': 'segmented', 'states': states})
+
+
 def generate(rng, tier):
     thorough = tier == 'thorough'
     n_main = 6000 if thorough else 1500
+    for _ in range(60 if thorough else 18):
+        yield esme_segmented_case(rng)
     for _ in range(120 if thorough else 36):
         yield esme_case(rng)
     for i in range(n_main):
